@@ -188,6 +188,13 @@ def cases(c):
             for fn in ('music', 'ev'):
                 out.append({'form': 'function', 'fn': fn, 'cplx': cplx, 'N': N, 'kind': 'tones', 'snr_db': snr, 'j': j,
                             'c': [cc, 0.0], 'p': {'P': P, 'select': sel, 'NSIG': 2, 'NFFT': 128}, 'directed': j < 2})
+    # order selection by a criterion on small-amplitude, well-conditioned records (criteria take log(rho): an absolute
+    # floor under the logarithm makes the chosen order depend on the unit of the data)
+    for j, (N, order, cplx) in enumerate([(64, 8, 0), (80, 10, 1), (48, 6, 0), (96, 12, 1)]):
+        for crit in ('AIC', 'KIC', 'MDL', 'FPE'):
+            base = {'cplx': cplx, 'N': N, 'kind': 'ar', 'j': j, 'amp': 1e-7, 'c': [1e-3, 0.0], 'directed': j == 0}
+            out.append(dict(base, form='function', fn='arburg', p={'order': order, 'criteria': crit}))
+            out.append(dict(base, form='class', cls='pburg', p={'order': order, 'criteria': crit}, NFFT=64, fs=1.0, reuse=None))
     # subspace selection by threshold on small-amplitude records (a threshold compares singular-value *ratios*)
     for j, (N, P, cplx, amp) in enumerate([(64, 8, 1, 1e-6), (48, 6, 0, 1e-6), (80, 10, 1, 1e-7), (40, 5, 0, 1e-5)]):
         for fn in ('music', 'ev'):
